@@ -568,6 +568,14 @@ static void mode_client(jval *sc, int scripted)
 	for (k = 0; opts && k < opts->n; k++)
 		fprintf(out, "%s%d", k ? "," : "", evdns_base_set_option(dns, opts->items[k]->items[0]->str, opts->items[k]->items[1]->str));
 	fprintf(out, "]");
+	if (j_get(sc, "conf")) { /* search list / ndots through a resolv.conf (documented order) */
+		char path[512];
+		jval *t = j_get(sc, "conf");
+		snprintf(path, sizeof path, "%s/dnsdrv_%d.qconf", j_str(sc, "dir", "/verif/out/tmp"), (int)getpid());
+		write_file(path, t->str, t->slen);
+		evdns_base_resolv_conf_parse(dns, DNS_OPTION_SEARCH | DNS_OPTION_MISC, path);
+		unlink(path);
+	}
 	for (k = 0; search && k < search->n; k++) evdns_base_search_add(dns, search->items[k]->str);
 	if (j_get(sc, "ndots")) evdns_base_search_ndots_set(dns, (int)j_int(sc, "ndots", 1));
 	evdns_base_nameserver_sockaddr_add(dns, (struct sockaddr *)&ns_addr, sizeof ns_addr, 0);
